@@ -6,6 +6,7 @@ From Coq Require Import String.
 From Coq Require Import List Bool Arith NArith ZArith.
 Import ListNotations.
 Require Import Str Rx RxFacts AsModel G_as_num TextModel TextProofs.
+Require Rx RxFacts RxLang AsToken.
 
 Theorem C11_block_preserved_for_every_hash_value :
   forall h asn : Z, (0 <= h)%Z -> (0 <= asn <= 4294967295)%Z ->
@@ -21,6 +22,17 @@ Proof. exact hash_int_nonneg. Qed.
 Theorem C11_pattern_consumes_text : forall nums, nums <> [] -> Forall (fun s => s <> []) nums -> RxFacts.nullable (as_rx nums) = false.
 Proof. exact as_regex_non_nullable. Qed.
 
+(* whole-number-only, for EVERY list of numerals, every line and every position (model/AsToken.v, through the declarative reading of the regex engine in
+   lib/RxDen.v / lib/RxLang.v): a span the engine reports for the AS pattern holds exactly one of the listed numerals, begins at the line start or after a
+   non-digit and ends at the line end or before a non-digit -- a listed number is never replaced inside a longer run of digits *)
+Theorem C11_pattern_matches_only_listed_whole_numbers :
+  forall (s : list Rx.chr) (nums : list (list Rx.chr)) (i : nat) (c : Rx.caps) (j : nat) (c' : Rx.caps), nums <> [] -> (i <= length s)%nat ->
+  In (j, c') (Rx.ms s (as_rx nums) i c) ->
+  In (RxLang.sub s i j) nums /\
+  (i = 0%nat \/ ((1 <= i)%nat /\ exists x, nth_error s (i - 1) = Some x /\ Rx.in_cset x NOT_DIGIT = true)) /\
+  (Rx.eol s j = true \/ exists x, nth_error s j = Some x /\ Rx.in_cset x NOT_DIGIT = true).
+Proof. exact AsToken.as_match_is_a_listed_whole_number. Qed.
+
 Example C11_range_ends : as_repl 0 65000 = AsOk 64512%Z /\ as_repl 1023 65000 = AsOk 65535%Z /\ as_repl 1024 65000 = AsOk 64512%Z.
 Proof. vm_compute. repeat split; reflexivity. Qed.
 
@@ -28,3 +40,4 @@ Print Assumptions C11_block_preserved_for_every_hash_value.
 Print Assumptions C11_out_of_range_rejected.
 Print Assumptions C11_hash_is_nonnegative.
 Print Assumptions C11_pattern_consumes_text.
+Print Assumptions C11_pattern_matches_only_listed_whole_numbers.
